@@ -778,7 +778,7 @@ def compare(exp, got, path='root', positions=False, text=None, problems=None, li
         problems.append(('structure', path, 'expected a %s, got %r' % (exp.cls, got)))
         return problems
     name = type(got).__name__
-    if name != exp.cls:
+    if name != exp.cls and name not in (exp.alt_cls or ()):
         problems.append(('structure', path, 'expected a %s, got a %s' % (exp.cls, name)))
         return problems
     seen = set()
